@@ -137,6 +137,13 @@ def _sqrtm_psd(M):
 
 def povm_generic(d, m, seed, salt=0, rank=None):
     """m-outcome POVM with non-commuting elements; rank=None -> full rank elements, rank=1 -> rank-1"""
+    if rank == 1 and m >= d:
+        # rows of an m x d isometry (QR of a generic matrix): well conditioned, sum = I to machine precision
+        G = np.vstack([R.generic_matrix(d, seed, salt=salt + 5 * x + 1)[:1, :] for x in range(m)])
+        G = G + 0.35 * np.eye(m, d)
+        Q, _ = np.linalg.qr(G)
+        Ms = [np.outer(Q[x].conj(), Q[x]) for x in range(m)]
+        return [(M + M.conj().T) / 2 for M in Ms]
     As = []
     for x in range(m):
         G = R.generic_matrix(d, seed, salt=salt + 5 * x + 1)
@@ -150,7 +157,11 @@ def povm_generic(d, m, seed, salt=0, rank=None):
     if rank is not None and np.linalg.matrix_rank(S) < d:
         raise ValueError("rank-deficient frame")
     Si = _inv_sqrt(S)
-    return [Si @ A @ Si for A in As]
+    Ms = [Si @ A @ Si for A in As]
+    Ms = [(M + M.conj().T) / 2 for M in Ms]
+    # make the elements sum to the identity to machine precision (the library's verdict is absolute, atol = 1e-13)
+    Ms[-1] = np.eye(d, dtype=np.complex128) - sum(Ms[:-1])
+    return Ms
 
 
 def povms_ref(d, seed, ms=(2, 3, 4)):
